@@ -51,6 +51,10 @@ func c07Configs(env *engine.Env) []c07Config {
 		s := s
 		out = append(out, c07Config{name: s.Name, only: s.Only, doc: func(env *engine.Env, root string) fixture.Doc { return s.doc(payload, root) }})
 	}
+	// file sizes on block, buffer and streaming-threshold boundaries
+	out = append(out, c07Config{name: "boundary-sizes", doc: func(env *engine.Env, root string) fixture.Doc {
+		return Setting{Name: "default"}.doc([]model.Entry{{Src: "sizes", Dst: "/opt/sizes", Type: "tree"}, {Src: "sizes/s1048576.bin", Dst: "/opt/one-mib.bin"}}, root)
+	}})
 	// times that are not whole seconds: the package mtime, entry mtimes, on-disk times of a tree
 	for _, mt := range []string{"F", "G"} {
 		s := Setting{Name: "mtime=" + mt, MTime: mt}
